@@ -11,6 +11,7 @@ import time
 from . import c01_detached as cdet
 from . import c01_gen as cgen
 from . import c01_graph as cg
+from . import c01_outputs as cout
 from . import c01_oracle as co
 from . import common, e2, e3, e3_gen
 
@@ -23,7 +24,9 @@ RULE = ("E3 differential oracle: seeded generator of projects (static files, sta
         "histories of 1-6 phases of edits (change / add / delete a source; drop, re-add, redefine or add "
         "steps, declarations and sub-plans; change or unset an env var; change ALL tracked variables or all "
         "source inputs (same size) of one step in one phase and put a SUBSET back in a later phase -- steps "
-        "track up to 3 declared and / or amended variables), each phase followed by a build by the "
+        "track up to 3 declared and / or amended variables; scripts edited so that they amend another set of "
+        "variables; a family in which PRODUCTS of steps are modified, deleted, rewritten with identical bytes or "
+        "touched between two builds), each phase followed by a build by the "
         "real serve() (restart flavour; a share in watch flavour and a share with njob=3 under a seeded "
         "completion order); the final incremental result is compared with a from-scratch build of the final "
         "sources: return-code class, the active plan-defined part of the canonical graph (steps, files, "
@@ -258,6 +261,37 @@ def guard_cases() -> dict:
             out[f"src-subset-revert:{flavour}:back-{'+'.join(back)}"] = co.case_json(p, [
                 {"edits": [{"op": "write", "path": q, "content": q[0] + "2\n"} for q in sorted(srcs)]},
                 {"edits": [{"op": "write", "path": q, "content": srcs[q]} for q in back]}], flavour)
+    # the SCRIPT of a script step is edited so that it amends another set of variables (one
+    # dropped, all dropped, one replaced), its declaration unchanged; then the dropped variable
+    # changes: nothing may remember it
+    def w(am):
+        return ([{"op": "amend", "env": list(am)}] if am else []) + \
+               [{"op": "getenv", "name": n} for n in am] + [{"op": "auto"}]
+    wplan = [{"op": "static", "paths": ["w.py"]}, {"op": "run", "label": "./w.py", "out": ["s.txt"]}]
+    for name, am0, am1 in (("one-dropped", ["VA", "VB"], ["VB"]), ("all-dropped", ["VA"], []),
+                           ("replaced", ["VA"], ["VB"])):
+        for tail_name, tail in (("", []), (":then-it-changes", [setenv({"VA": "va9"})])):
+            p = e3.Project(sources={}, env={"VA": "va0", "VB": "vb0"},
+                           program={"scripts": {"plan.py": wplan, "w.py": w(am0)}, "commands": {}})
+            out[f"amended-env-{name}{tail_name}"] = co.case_json(
+                p, [{"edits": [{"op": "script", "path": "w.py", "actions": w(am1)}]}, *tail])
+    # the user touches PRODUCTS between two builds: an intermediate / final output is modified,
+    # deleted, written again with the same bytes, or merely touched (restart and watch flavour);
+    # a build from scratch does not care what the output looked like before
+    chain = [st, t, u]
+    for path in ("o.txt", "u.txt"):
+        for kind, edit in (("modified", {"op": "write", "path": path, "content": "edited by hand\n"}),
+                           ("deleted", {"op": "delete", "path": path}),
+                           ("touched", {"op": "touch", "path": path})):
+            for flavour in ("restart", "watch"):
+                p = e3.Project(sources={"s.txt": "old\n"}, program={"scripts": {"plan.py": chain}, "commands": {}})
+                out[f"product-{kind}:{path}:{flavour}"] = co.case_json(p, [{"edits": [edit]}, {"edits": []}], flavour)
+    # ... together with a change of the source upstream, and with the producer inside a sub-plan
+    p = e3.Project(sources={"s.txt": "old\n"}, program={"scripts": {
+        "plan.py": [st, {"op": "static", "paths": ["p1.py"]}, {"op": "plan", "label": "./p1.py"}, u], "p1.py": [t]},
+        "commands": {}})
+    out["product-modified:subplan+source-change"] = co.case_json(p, [
+        {"edits": [{"op": "write", "path": "o.txt", "content": "edited by hand\n"}, change]}])
     return out
 
 
@@ -312,6 +346,33 @@ def _run_subset(i_seed):
     """Worker: one history of the family 'change several things of one step, revert a subset'."""
     i, seed = i_seed
     case, desc = _subset_case(seed, i)
+    out = {"i": i, "desc": desc, "sigs": {}, "error": None}
+    try:
+        try:
+            r = co.run_case(case)
+        except (e3.E3Error, OSError):
+            if case["flavour"] != "watch":
+                raise
+            r = co.run_case(dict(case, flavour="restart"))
+    except (e3.E3Error, OSError) as exc:
+        out["error"] = f"{type(exc).__name__}: {str(exc)[:300]}"
+        return out
+    sigs = co.signatures(r["inc"], r["scr"], r["diffs"], None, r["results"][:-1])
+    out["sigs"] = {k: [[d["kind"], d["key"], d["a"], d["b"]] for d in v[:6]] for k, v in sigs.items()}
+    out["rc"] = [x.returncode for x in r["results"]] + [r["scr"].returncode]
+    out["executed"] = [len(x.commands) for x in r["results"]]
+    out["size"] = co.case_size(case)
+    return out
+
+
+def _output_case(seed, i):
+    return cout.gen_output_case(random.Random(f"c01-outputs-{seed}-{i}"))
+
+
+def _run_output(i_seed):
+    """Worker: one history of the family 'products of steps edited between two builds'."""
+    i, seed = i_seed
+    case, desc = _output_case(seed, i)
     out = {"i": i, "desc": desc, "sigs": {}, "error": None}
     try:
         try:
@@ -503,6 +564,40 @@ def oracle(ctx, n_override=None):
             sig2 = next((k for k in final if k.split(":after:")[0] == sig), sig)
         reported.add(sig)
         _report(ctx, sig2, case, diffs, f"subset-revert case {i} ({json.dumps(desc, sort_keys=True)}), "
+                f"{len(lst)} case(s) with this signature")
+    # (2d) generated histories 'products of steps are modified / deleted / rewritten / touched
+    #      between two builds' (no other generator edits anything but sources, scripts, variables)
+    no = ctx.scale(30, 400)
+    ores = e3.pool_map(_run_output, [(i, ctx.seed) for i in range(no)], nproc=ctx.scale(10, 12))
+    oby: dict = {}
+    for res in ores:
+        ctx.count("output_family")
+        if res["error"]:
+            ctx.add_failure("oracle", "harness", "C01:harness-error:" + res["error"].split(":")[0],
+                            f"E3 could not run product-edit case {res['i']}: {res['error']}",
+                            witness={"i": res["i"], "desc": res["desc"]})
+            continue
+        for k in res["desc"]["kinds"]:
+            ctx.count("output_edit:" + k)
+        ctx.count("output_flavour:" + res["desc"]["flavour"])
+        # non-trivial: a build after the first one re-ran something
+        ctx.case(("outputs", res["i"], json.dumps(res["desc"], sort_keys=True)),
+                 nontrivial=sum(res["executed"][1:]) > 0)
+        for sig, diffs in res["sigs"].items():
+            ctx.count("sig:" + sig)
+            oby.setdefault(sig, []).append((res["size"], res["i"], diffs))
+    for sig, lst in sorted(oby.items()):
+        if sig in reported:
+            continue
+        lst.sort()
+        size, i, diffs = lst[0]
+        case, desc = _output_case(ctx.seed, i)
+        sig2 = sig
+        if sig not in KNOWN_NAMED:
+            final = co.case_signatures(case, with_triggers=True)
+            sig2 = next((k for k in final if k.split(":after:")[0] == sig), sig)
+        reported.add(sig)
+        _report(ctx, sig2, case, diffs, f"product-edit case {i} ({json.dumps(desc, sort_keys=True)}), "
                 f"{len(lst)} case(s) with this signature")
     # (3) generated histories
     n = n_override or ctx.scale(240, 4000)
